@@ -37,7 +37,7 @@ MODES = ['l', 'lp', 'b', 'plain', 'lm', 'pm', 'explicit']
 TICK = 100
 # how the program leaves its standard streams when it ends
 OUTS = ['ok', 'none', 'closed', 'unwritable', 'errnone']
-OUTCODE = {'ok': 0, 'errnone': 0, 'none': 1, 'closed': 2, 'unwritable': 2, 'file': 3, 'stringio': 3, 'tee': 3}
+OUTCODE = {'ok': 0, 'errnone': 0, 'gone': 0, 'none': 1, 'closed': 2, 'unwritable': 2, 'file': 3, 'stringio': 3, 'tee': 3}
 # stdout rebound to a working stream and not restored (used with the -l -v modes)
 REBOUND = ['file', 'stringio', 'tee']
 TEEMOD = 'teemod_c06'
@@ -75,6 +75,9 @@ elif OUT == 'unwritable':
     sys.stdout = open(__file__)
 elif OUT == 'errnone':
     sys.stderr = None
+elif OUT == 'gone':         # the program's source is no longer there when the results are written
+    import os
+    os.remove(__file__)
 elif OUT == 'file':
     sys.stdout = open('progress.log', 'w')
 elif OUT == 'stringio':
@@ -85,6 +88,8 @@ elif OUT == 'tee':
 """
 if DECO == 'explicit':
     from line_profiler import profile as deco
+    if OUT == 'gone':       # report every decorated function, also those never reached
+        deco.show_config['stripzeros'] = 0
 elif DECO == 'builtin':
     deco = profile
 else:
@@ -219,6 +224,8 @@ def gen_program(rnd, nfun, budget, fin, withs=False):
             body.insert(rnd.choice(tops + [len(body)]), '    x = tick(f%d(x %% 3))' % (i + 1))
         lines += body
         lines.append('    return tick(x)')
+    # a decorated function that is never reached
+    lines += ['', '', '@deco', 'def f%d(x):' % nfun, '    x = tick(x + 1)', '    return tick(x)']
     lines += ['', ''] + ['_pre = tick(%d)' % j for j in range(NPRE)] + ['f0(%d)' % rnd.randrange(1, 4), "print('END', _n)", 'exec(LEAVE, globals())']
     return '\n'.join(lines) + '\n'
 
@@ -309,7 +316,7 @@ def run_case(impl, base, idx, c, progs):
     env = core.impl_env(impl, **extra)
     r = sub(cmd, d, env)
     ref = None
-    if c['mode'] == 'explicit':
+    if c['mode'] == 'explicit' and c.get('out') != 'gone':
         ref = sub([core.PY, prog['file'], str(c['k']), c['kind'], 'nodeco', c.get('out', 'ok')], d, core.impl_env(impl))
     return dict(c=c, dir=d, cmd=cmd[1:], outfile=os.path.join(d, outfile), outname=outfile, r=r, ref=ref,
                 listing=sorted(os.listdir(d)))
@@ -501,7 +508,7 @@ def make_programs(rnd, tier, base):
         for attempt in range(200):
             text = gen_program(rnd, nfun, budget, fin, withs)
             # an exception that leaves a with block executes the with line again (__exit__) during the unwinding
-            prog = dict(name='p%d' % pi, file='progc06_%d.py' % pi, text=text, nfun=nfun, fin=fin or withs, deco=list(range(nfun)),
+            prog = dict(name='p%d' % pi, file='progc06_%d.py' % pi, text=text, nfun=nfun + 1, fin=fin or withs, deco=list(range(nfun + 1)),
                         gen=False, withs=withs)
             o = oracle(base, prog, 0, 'none')
             full = conv(o['events'])
@@ -560,6 +567,10 @@ def make_cases(rnd, tier, progs):
                     waitat = rnd.randrange(NPRE + 1, prog['N'] - 3)
                     k = 0 if kind == 'none' else rnd.randrange(waitat + 1, prog['N'] + 1)
                     cases.append(dict(p=pi, k=k, kind=kind, mode='li', waitat=waitat))
+        # explicit mode: every decorated function is reported (also the never reached one) and the program's
+        # source file is gone when the exit hook writes the outputs
+        for kind in (rnd.sample(KINDS, 2) if tier == 'quick' else KINDS):
+            cases.append(dict(p=pi, k=0 if kind == 'none' else rnd.choice(ks), kind=kind, mode='explicit', out='gone'))
         # kernprof -l -v (also with an auto-profiled helper module): the program ends with sys.stdout untouched /
         # rebound to a log file, a StringIO, a tee object of the helper module; the report must reach the real
         # stdout and agree with the file
